@@ -489,7 +489,8 @@ func (s *state) appendHandler(
 		Body: "*",
 	}
 	if err := s.path.addRule(implicitRule, desc, h.method); err != nil {
-		panic(fmt.Sprintf("bug: %v", err))
+		// Another method's rule may already bind this method's path.
+		return fmt.Errorf("[%s] implicit rule: %w", desc.FullName(), err)
 	}
 
 	// Add all ServiceConfig.http rules.
